@@ -150,6 +150,18 @@ func cmdCheck(args []string) int {
 	}
 
 	var results []*entryResult
+	selected := 0
+	for _, ec := range cc.Entries {
+		if (*only == "" || strings.Contains(ec.Func, *only)) && (!ec.Thorough || thorough) {
+			selected++
+		}
+	}
+	if selected == 0 {
+		// nothing to run is never a success (a mistyped -only, or a tier without entries)
+		fmt.Printf("INCONCLUSIVE property=%s reason=no entry selected (only=%q tier=%s)\n", id, *only, *tier)
+		writeFailEvidence(evPath, &cc, *tier, seed, time.Since(t0), "no entry selected")
+		return 2
+	}
 	for _, ec := range cc.Entries {
 		if *only != "" && !strings.Contains(ec.Func, *only) {
 			continue
